@@ -18,7 +18,7 @@ MALFORMED = ["[1 2] U [34P]", "[12] U [34 P]", "[12] u [34p]"]  # the last one: 
 AHB = ["Muss [1] U [2] Soll [3]"]
 # runs of one operator (their inner grouping is unspecified, but every parse of the same text groups them the same way); only
 # observed by the invariant (no operations of its own): parsed from scratch, with the execution's unique padding, in every state
-CHAIN = "[1] U [2] U [3] U [4] O [5] O [6] O [7] X [8] X [9] X [10] X ([11][901] U [12] U [13])"
+CHAIN = "[1] U [2] U [3] O [4] O [5] X [6] X [7][901]"
 PACKAGES = {"4P": "[1] O [3]"}
 RC = {"1": "F", "2": "U", "3": "?", "492": "F", "493": "U"}
 FC = {"901": (True, None), "932": (True, None), "934": (False, "msg 934")}
@@ -36,7 +36,7 @@ def describe(tier):
                 f"{len(COND)} strings incl. keys outside the number ranges), Pm(s) (a MALFORMED string that equals a valid one when whitespace is "
                 "removed), Pa(s) (AHB parser), R(s) (resolver with packages + time conditions, AHB and condition string), Ev(s) "
                 "(evaluate under a fixed content evaluation result), Edit(handle, node, kind) - child list edits, renaming, and assignment to the attributes of a Token object - on one of the last two returned trees for EVERY "
-                f"node of the tree and kind in {EDIT_KINDS}, (the invariant also re-parses a 13-operand expression with runs of U, O and X: same grouping in every state), Flood (= {FLOOD_N} fresh distinct strings through both public parsers: real LRU "
+                f"node of the tree and kind in {EDIT_KINDS}, (the invariant also re-parses a 7-operand expression with runs of U, O and X: same grouping in every state), Flood (= {FLOOD_N} fresh distinct strings through both public parsers: real LRU "
                 f"eviction, every flooded result checked); at most {b['max_edits']} edits per history, at most one flood, floods only in "
                 "edit-free histories (deviation bounds). Every transition replays the history from scratch on the real functions with "
                 "per-execution whitespace-padded spellings (distinct cache keys, same trees). Invariant evaluated in EVERY state: for every "
